@@ -25,9 +25,12 @@ import (
 	"math"
 	"math/rand"
 	"os"
+	"reflect"
+	"sort"
 	"strconv"
 	"strings"
 	"time"
+	"unsafe"
 
 	"github.com/sarchlab/mgpusim/v4/amd/benchmarks"
 	"github.com/sarchlab/mgpusim/v4/amd/benchmarks/amdappsdk/bitonicsort"
@@ -161,6 +164,14 @@ func main() {
 // loop tests and advances the outer index (matrixmultiplication.go, "for j := ...; i < ...; i++"),
 // so only the first column of the product is compared; here every element is.
 func fullCheck(b benchmarks.Benchmark) {
+	if f, ok := b.(*fft.Benchmark); ok {
+		fullCheckFFT(f)
+		return
+	}
+	if bs, ok := b.(*bitonicsort.Benchmark); ok {
+		fullCheckBitonicSort(bs)
+		return
+	}
 	mm, ok := b.(*matrixmultiplication.Benchmark)
 	if !ok || mm.MatrixC == nil {
 		return
@@ -370,4 +381,99 @@ func build(r *runner.Runner, c *benchcase.Case) benchmarks.Benchmark {
 	}
 	die("unknown workload %q", c.Workload)
 	return nil
+}
+
+// fullCheckFFT: shoc/fft's Verify() compares the two halves of the HOST INPUT array with each
+// other (fft.go fftCPU) and never looks at what was read back. Here every 512-point block of
+// the result is compared with a direct DFT of the input block, applied Passes times.
+func fullCheckFFT(f *fft.Benchmark) {
+	get := func(name string) reflect.Value {
+		v := reflect.ValueOf(f).Elem().FieldByName(name)
+		if !v.IsValid() {
+			die("fft.Benchmark has no field %q any more", name)
+		}
+		return reflect.NewAt(v.Type(), unsafe.Pointer(v.UnsafeAddr())).Elem()
+	}
+	src, _ := get("source").Interface().([]fft.Float2)
+	res, _ := get("result").Interface().([]fft.Float2)
+	if len(src) == 0 || len(res) != len(src) || len(src)%512 != 0 {
+		die("fft: unexpected source/result arrays (%d, %d elements)", len(src), len(res))
+	}
+	passes := int(f.Passes)
+	var tw [512]complex128
+	for k := range tw {
+		a := -2 * math.Pi * float64(k) / 512
+		tw[k] = complex(math.Cos(a), math.Sin(a))
+	}
+	bad, firstBlock, firstK := 0, -1, -1
+	var firstWant, firstGot complex128
+	for blk := 0; blk < len(src)/512; blk++ {
+		cur := make([]complex128, 512)
+		for i := range cur {
+			cur[i] = complex(float64(src[blk*512+i].X), float64(src[blk*512+i].Y))
+		}
+		for p := 0; p < passes; p++ {
+			next := make([]complex128, 512)
+			for k := 0; k < 512; k++ {
+				var acc complex128
+				for n := 0; n < 512; n++ {
+					acc += cur[n] * tw[(k*n)%512]
+				}
+				next[k] = acc
+			}
+			cur = next
+		}
+		scale := 1.0
+		for _, v := range cur {
+			if m := math.Hypot(real(v), imag(v)); m > scale {
+				scale = m
+			}
+		}
+		for k := 0; k < 512; k++ {
+			got := complex(float64(res[blk*512+k].X), float64(res[blk*512+k].Y))
+			if d := got - cur[k]; math.Hypot(real(d), imag(d)) > 1e-3*scale {
+				bad++
+				if firstBlock < 0 {
+					firstBlock, firstK, firstWant, firstGot = blk, k, cur[k], got
+				}
+			}
+		}
+	}
+	if bad > 0 {
+		fmt.Fprintf(os.Stderr, "BENCHRUN-FULLCHECK-FAIL fft: %d of %d output elements differ from the %d-fold 512-point DFT of the input (first: block %d element %d: expected %v, got %v); Verify() never looks at the result\n",
+			bad, len(res), passes, firstBlock, firstK, firstWant, firstGot)
+		os.Exit(1)
+	}
+}
+
+// fullCheckBitonicSort: bitonicsort's Verify() only checks that the output is ordered; an
+// output of equal numbers would pass. Here the output must also be a permutation of the input.
+func fullCheckBitonicSort(b *bitonicsort.Benchmark) {
+	get := func(name string) []uint32 {
+		v := reflect.ValueOf(b).Elem().FieldByName(name)
+		if !v.IsValid() {
+			die("bitonicsort.Benchmark has no field %q any more", name)
+		}
+		out, ok := reflect.NewAt(v.Type(), unsafe.Pointer(v.UnsafeAddr())).Elem().Interface().([]uint32)
+		if !ok {
+			die("bitonicsort.Benchmark.%s is not a []uint32 any more", name)
+		}
+		return out
+	}
+	in, out := append([]uint32(nil), get("inputData")...), get("outputData")
+	if len(in) != len(out) {
+		die("bitonicsort: %d inputs, %d outputs", len(in), len(out))
+	}
+	sort.Slice(in, func(i, j int) bool {
+		if b.OrderAscending {
+			return in[i] < in[j]
+		}
+		return in[i] > in[j]
+	})
+	for i := range in {
+		if in[i] != out[i] {
+			fmt.Fprintf(os.Stderr, "BENCHRUN-FULLCHECK-FAIL bitonicsort: the output is not the sorted input: element %d is %d, the sorted input has %d there; Verify() checks the order only\n", i, out[i], in[i])
+			os.Exit(1)
+		}
+	}
 }
